@@ -31,3 +31,79 @@ Proof.
   intros rv H. unfold draw. rewrite (Z.mod_small (factor * rv) (2 ^ 32)); [reflexivity|].
   unfold factor, congruent in *. split; [lia|]. change (2 ^ 32) with 4294967296. lia.
 Qed.
+
+(* ---------------------------------------------------------------- the Richtmeyer sequence restarts at each mvndst *)
+Local Close Scope Z_scope.
+Local Open Scope nat_scope.
+Definition dk_agree (a b : dk) : Prop :=
+  dk_olds a = dk_olds b /\ dk_hisum a = dk_hisum b /\ forall i, (i <= dk_hisum a)%nat -> dk_n a i = dk_n b i.
+
+Lemma dk_incr_agree : forall (P : nat -> Prop) idx n n',
+    (forall i, P i -> n i = n' i) -> (forall i, In i idx -> P i) ->
+    snd (dk_incr idx n) = snd (dk_incr idx n') /\ forall i, P i -> fst (dk_incr idx n) i = fst (dk_incr idx n') i.
+Proof.
+  intros P idx. induction idx as [|a r IH]; intros n n' H Hidx; simpl; [auto|].
+  assert (Ha : n a = n' a) by (apply H; apply Hidx; left; reflexivity). rewrite <- Ha.
+  destruct (Nat.ltb (S (n a)) 2).
+  - simpl. split; [reflexivity|]. intros i Hi. unfold dk_upd. destruct (Nat.eqb i a); [reflexivity | apply H; exact Hi].
+  - apply IH.
+    + intros i Hi. unfold dk_upd. destruct (Nat.eqb i a); [reflexivity | apply H; exact Hi].
+    + intros i Hi. apply Hidx. right. exact Hi.
+Qed.
+
+Lemma fold_ext_in : forall (l : list nat) (f g : nat -> nat) a, (forall i, In i l -> f i = g i) ->
+    fold_left (fun acc i => f i + 2 * acc)%nat l a = fold_left (fun acc i => g i + 2 * acc)%nat l a.
+Proof.
+  induction l as [|x l IH]; intros f g a H; simpl; [reflexivity|].
+  rewrite (H x (or_introl eq_refl)). apply IH. intros i Hi. apply H. right. exact Hi.
+Qed.
+
+(* from two states that agree on what the sequence looks at: same output, and they still agree *)
+Lemma dk_step_core : forall a b, dk_agree a b ->
+    fst (dk_core a) = fst (dk_core b) /\ dk_agree (snd (dk_core a)) (snd (dk_core b)).
+Proof.
+  intros a b [Ho [Hh Hn]]. unfold dk_core.
+  destruct (dk_incr_agree (fun i => (i <= dk_hisum a)%nat) (seq 0 (S (dk_hisum a))) (dk_n a) (dk_n b) Hn) as [Hs Hf].
+  { intros i Hi. apply in_seq in Hi. lia. }
+  rewrite <- Hh. rewrite <- Hs.
+  set (na := fst (dk_incr (seq 0 (S (dk_hisum a))) (dk_n a))) in *. set (nb := fst (dk_incr (seq 0 (S (dk_hisum a))) (dk_n b))) in *.
+  destruct (snd (dk_incr (seq 0 (S (dk_hisum a))) (dk_n a))); cbn [fst snd dk_olds dk_hisum dk_n].
+  - split.
+    + apply fold_ext_in. intros i Hi. apply in_rev in Hi. apply in_seq in Hi. apply Hf. lia.
+    + split; [exact Ho|]. split; [reflexivity|]. intros i Hi. apply Hf. exact Hi.
+  - set (h2 := if Nat.ltb 48 (S (dk_hisum a)) then 0%nat else S (dk_hisum a)).
+    assert (Hag : forall i, (i <= h2)%nat -> dk_upd na h2 1 i = dk_upd nb h2 1 i).
+    { intros i Hi. unfold dk_upd. destruct (Nat.eqb i h2) eqn:E; [reflexivity|]. apply Nat.eqb_neq in E. apply Hf.
+      unfold h2 in *. destruct (Nat.ltb 48 (S (dk_hisum a))); lia. }
+    split.
+    + apply fold_ext_in. intros i Hi. apply in_rev in Hi. apply in_seq in Hi. apply Hag. lia.
+    + split; [exact Ho|]. split; [reflexivity|]. exact Hag.
+Qed.
+
+Lemma dk_step_agree : forall s a b,
+    dk_agree a b \/ (dk_olds a = 0%nat /\ dk_olds b = 0%nat /\ (1 <= s)%nat) ->
+    fst (dk_step s a) = fst (dk_step s b) /\ dk_agree (snd (dk_step s a)) (snd (dk_step s b)).
+Proof.
+  intros s a b H.
+  assert (Hr : dk_agree (dk_reinit s a) (dk_reinit s b)).
+  { unfold dk_reinit. destruct H as [[Ho [Hh Hn]]|[Ha [Hb Hs]]].
+    - rewrite <- Ho. destruct (negb (Nat.eqb s (dk_olds a)) || Nat.ltb s 1).
+      + split; [reflexivity|]. split; [reflexivity|]. simpl. intros i Hi. unfold dk_upd. assert (i = 0%nat) by lia. subst. reflexivity.
+      + split; [exact Ho|]. split; [exact Hh | exact Hn].
+    - rewrite Ha, Hb. assert (E : Nat.eqb s 0 = false) by (apply Nat.eqb_neq; lia). rewrite E. simpl.
+      split; [reflexivity|]. split; [reflexivity|]. simpl. intros i Hi. unfold dk_upd. assert (i = 0%nat) by lia. subst. reflexivity. }
+  unfold dk_step. exact (dk_step_core (dk_reinit s a) (dk_reinit s b) Hr).
+Qed.
+
+Lemma dk_run_S : forall s x m, dk_run s x (S m) = fst (dk_step s x) :: dk_run s (snd (dk_step s x)) m.
+Proof. intros. simpl. destruct (dk_step s x). reflexivity. Qed.
+
+(* after the reset made by mvndst, the vectors handed out are a function of the dimension alone *)
+Theorem dkrcht_reset : forall s k a b, (1 <= s)%nat -> dk_run s (dk_reset a) k = dk_run s (dk_reset b) k.
+Proof.
+  intros s k a b Hs.
+  assert (G : forall m x y, dk_agree x y \/ (dk_olds x = 0%nat /\ dk_olds y = 0%nat /\ (1 <= s)%nat) -> dk_run s x m = dk_run s y m).
+  { intros m. induction m as [|m IH]; intros x y H; [reflexivity|].
+    rewrite !dk_run_S. destruct (dk_step_agree s x y H) as [H1 H2]. rewrite H1. f_equal. apply IH. left. exact H2. }
+  apply G. right. simpl. auto.
+Qed.
